@@ -16,8 +16,9 @@ JOBS.append(Job('pipe.relife', 'C10/pipe.cpp', 'h_pipe_relife', 'B', defs={'BUFS
 META = dict(
     explanation='The real util/async_pipe.cpp (producer side, background thread, cleanup) is executed by engine/symir.py with its thread scheduler: every std::mutex / condition-variable / std::thread operation and every atomic access is a scheduling point where the next thread is a symbolic choice; the engine forks over all enabled threads within a preemption bound, '
                 'timed waits may expire early within a bound and always expire when nothing else can run; a state in which an unfinished thread can never run again is reported as a deadlock (cleanup never returns). Every plain load/store of heap/global memory is checked with vector clocks (thread start/join, unlock->lock, atomics): an unordered conflicting pair is a data race, '
-                'and racy addresses become additional scheduling points in a second pass so that the consequences of a race are explored too. The harness checks the delivered stream against the appended strings (whole appends contiguous, producer order kept, nothing lost or duplicated), that sink callbacks never overlap and that everything appended before cleanup is delivered when cleanup returns.',
-    bounds='buffer sizes 1-2, 1-2 buffers, one producer (appends of 1-3 then 0-2 bytes) and two producers (3 + 2 bytes); preemption bound 1 and 1 early timed-wait expiry in the quick tier, bound 2 in the thorough tier',
+                'and racy addresses become additional scheduling points in a second pass so that the consequences of a race are explored too. The harness checks the delivered stream against the appended strings (whole appends contiguous, producer order kept, nothing lost or duplicated), that sink callbacks never overlap and that everything appended before cleanup is delivered when cleanup returns.'
+                ' Extended: second life - initialize, append, cleanup, initialize again (callback registered again, as log::AsyncSink does), append 1-3 bytes, cleanup: both lives deliver everything.',
+    bounds='buffer sizes 1-2, 1-2 buffers, one producer (appends of 1-3 then 0-2 bytes) and two producers (3 + 2 bytes); preemption bound 1 and 1 early timed-wait expiry in the quick tier, bound 2 in the thorough tier; second life: buffer size 2, max 2 buffers, preemption bound 1',
     outside='more than two producers; preemption bounds above 2; weak-memory effects (sequential consistency assumed for race-free executions); flush-interval timing (time is abstracted to "may expire"); appendLockless without appendLock',
     assumptions=['pthread mutex / condition variable / std::thread semantics as modelled by the engine (lost-wake-up faithful: notify only affects threads already waiting)'],
     trusted_base=['clang++-14 -O1 IR', 'engine/symir.py thread scheduler, sync models and vector-clock race detector', 'z3'])
